@@ -153,3 +153,19 @@ pub fn heap_at_oom(young: usize, old: usize, large: usize) {
     OOM_HEAP[1].store(old as u64, Ordering::Relaxed);
     OOM_HEAP[2].store(large as u64, Ordering::Relaxed);
 }
+
+/// A native that blocks (sleeps, waits for I/O) must park its thread first: a thread that
+/// blocks while its state is Running makes every stop-the-world operation wait until the
+/// call returns. `running` = the state byte of the calling thread says Running (or
+/// SafepointRequested) at the moment it blocks.
+pub static BLOCKING_NATIVES: AtomicU64 = AtomicU64::new(0);
+
+pub fn blocking_native(name: &str, running: bool) {
+    if !crate::is_active() {
+        return;
+    }
+    BLOCKING_NATIVES.fetch_add(1, Ordering::Relaxed);
+    if running {
+        fail("M-stw", &format!("native {} blocks while its thread is in state Running: a stop-the-world operation requested meanwhile has to wait until the call returns", name));
+    }
+}
